@@ -44,3 +44,176 @@ def handoff_clause(events, addr, datagram):
         a = ev[0][1]
         return len(a) == 3 and a[0] is addr and a[2] is datagram and S.Not(S.bool(BLOCKED(S.term(addr[0]))))
     return False
+
+
+# ------------------------------------------------------------------------------------------ the reference UDP server loop
+def fake_socket(ip, fn, args, kwargs):
+    """ASSUMED model of the socket: recvfrom returns some datagram from some address, or raises ConnectionResetError"""
+    def recvfrom(ip2, fn2, a2, k2):
+        if ip2.ctx.choose(2) == 1:
+            ip2.ctx.raise_exc('ConnectionResetError', 'recvfrom')
+        d = Sym(ip2.ctx.fresh('datagram', BytesSort), 'bytes')
+        n = ip2.ctx.fresh('datagram_len', z3.IntSort())
+        ip2.ctx.assume(n >= 0)
+        ops.set_len_term(d.t, n)
+        addr = (Sym(ip2.ctx.fresh('ip', z3.StringSort()), 'str'), Sym(ip2.ctx.fresh('port', z3.IntSort()), 'int'))
+        ip2.state.ghost['received'] = (d, addr)
+        return (d, addr)
+    quiet = lambda name: Opaque('sock.' + name, {'returns': None})
+    return Obj(None, {'setsockopt': quiet('setsockopt'), 'bind': quiet('bind'), 'fileno': Opaque('sock.fileno', {'returns': 3}),
+                      'recvfrom': Opaque('sock.recvfrom', {'effect': recvfrom})}, tag='socket')
+
+
+def fake_thread(ip, info, *args, **kwargs):
+    return Obj(None, {'start': Opaque('thread.start', {'returns': None}), 'append': Opaque('thread.append', {'returns': None})}, tag='thread')
+
+
+def parse_header_model(ip, isServer, datagram):
+    """PacketHeader.from_bytes (its own contract: c09_codec) seen as an event: it parses or raises"""
+    ip.state.events.append(('PacketHeader.from_bytes', (isServer, datagram), {}))
+    if ip.ctx.choose(2) == 1:
+        ip.ctx.raise_exc('PacketError', 'malformed header')
+    return Obj(ip.repo.cls('connection.PacketHeader'), {}, tag='hdr')
+
+
+def receive_pre(ip, frame, env):
+    ip.state.ghost['ev0'] = len(ip.state.events)
+    ip.state.ghost.pop('received', None)
+
+
+def receive_post(ip, frame, env):
+    g = ip.state.ghost
+    key = ip.verifying_key
+    if 'received' not in g:
+        return
+    d, addr = g['received']
+    ev = ip.state.events[g['ev0']:]
+    work = [e for e in ev if e[0] in ('PacketHeader.from_bytes', 'thread.append')]
+    blocked = BLOCKED(ops.term(addr[0]))
+    ip.ctx.oblige('%s/loop@receive:iteration/blocked-source-causes-no-processing' % key, z3.Implies(blocked, z3.BoolVal(len(work) == 0)))
+    app = [e for e in ev if e[0] == 'thread.append']
+    ok = len(app) == 0 or (len(app) == 1 and len(app[0][1]) == 3 and app[0][1][0] is addr and app[0][1][2] is d)
+    ip.ctx.oblige('%s/loop@receive:iteration/at-most-one-hand-off-of-the-unchanged-datagram' % key, z3.BoolVal(ok))
+
+
+@contract('server._UdpServer.run', props=['C11'])
+class _:
+    """the reference receive loop: for every datagram from every address - block-listed sources are discarded before the header is
+    even parsed; a datagram is handed to the server thread at most once, unchanged; no exception of the parser leaves the loop"""
+    def setup(E):
+        ctxt = E.plain_obj(tag='ctxt', blocklist=BlockList(), access_log=None, log=E.member_logger(), _active=E.bool('active'))
+        return dict(self=E.obj('server._UdpServer', tag='self', addr=('0.0.0.0', 1474), ctxt=ctxt))
+    hooks = {'opaque:socket.socket': fake_socket, 'class:server.UdpServerThread': fake_thread,
+             'model:connection.PacketHeader.from_bytes': parse_header_model}
+    loops = {0: LoopSpec(label='receive', havoc=['self.ctxt._active'], invariant={}, ghost_pre=receive_pre, ghost_post=receive_post)}
+    ensures = {}
+
+
+# ------------------------------------------------------------------------------------------ anti-amplification (arithmetic over two contracts)
+from pyvc import libspec
+from contracts.c09_codec import set_limits, PKT
+HCH = 'connection.HandshakeClientHelloMessage'
+HSH = 'connection.HandshakeServerHelloMessage'
+HELLO_BODY_MAX = 302          # bytes HandshakeServerHelloMessage.serialize may write (proved below)
+PADDED = lambda mp: mp - 24   # bytes a client hello must provide after its type id (proved below)
+
+
+def decode_and_advance(ip, stream, **kwargs):
+    """ASSUMED model of deserialize_value for the size argument (C14 proves it for the real decoder): on success the position
+    moves forward by at least the two type-id bytes and stays inside the buffer; the value is arbitrary"""
+    ip.ctx.lib_used.add('serializable.deserialize_value inside the client hello: consumes >= 2 bytes, never past the end, value arbitrary (C14 contract restated; model in c11_entry)')
+    if ip.ctx.choose(2) == 1:
+        ip.ctx.raise_exc('Exception', 'decoder rejected the bytes')
+    k = ip.ctx.fresh('consumed', z3.IntSort())
+    total = ops.term(ops.bytes_len(stream.buf), 'int')
+    pos = ops.term(stream.pos, 'int')
+    ip.ctx.assume(z3.And(k >= 2, pos + k <= total))
+    stream.pos = Sym(z3.simplify(pos + k), 'int')
+    n = getattr(stream, 'decoded', 0)
+    stream.decoded = n + 1
+    if n == 0:
+        t = ip.ctx.fresh('der', BytesSort)
+        ops.set_len_term(t, ip.ctx.fresh('der_len', z3.IntSort()))
+        return Sym(t, 'bytes')
+    return Sym(ip.ctx.fresh('version', z3.IntSort()), 'int')
+
+
+@contract(HCH + '.deserialize', props=['C11'], variant='padding')
+class _:
+    """for EVERY byte string and every MTU: a client hello is accepted only if exactly MAX_PAYLOAD_SIZE - 24 bytes follow its
+    type id (key, version and padding together) - a shorter one raises; so an accepted hello datagram has at least
+    MAX_PAYLOAD_SIZE + 4 bytes"""
+    def setup(E):
+        set_limits(E, E.int('MTU', lo=96, hi=1500))
+        data = E.bytes('data')
+        stream = libspec.BytesIOVal(E.ip, data)
+        p0 = E.int('pos0', lo=0)
+        E.assume(S.term(p0) <= ops.blen(data.t))
+        stream.pos = p0
+        E.ghost('pos0', p0)
+        return dict(self=E.obj(HCH, tag='self'), stream=stream)
+    hooks = {'model:serializable.deserialize_value': decode_and_advance}
+    ensures = {
+        'accepted-hello-is-padded-to-a-full-datagram': lambda stream, ghost, E: S.bool(z3.And(
+            S.term(stream.pos, 'int') - S.term(ghost.pos0, 'int') == PADDED(S.term(E.ip.class_attr(E.cls(PKT), 'MAX_PAYLOAD_SIZE')[1], 'int')),
+            S.term(stream.pos, 'int') <= ops.blen(S.term(stream.buf)))),
+    }
+    may_raise = ['Exception']
+
+
+@contract(HSH + '.serialize', props=['C11'], variant='size')
+class _:
+    """the REAL serialize (real serialize_value) is executed for every key id, 16-byte salt, 31-bit token and signature length
+    8..72: it writes at most HELLO_BODY_MAX bytes"""
+    def setup(E):
+        ip = E.ip
+        msg = E.obj(HSH, tag='self', server_pubkey=libspec.mk_pub(ip, E.int('server_kid')), salt=E.bytes('salt', length=16),
+                    token=E.int('token', lo=2 ** 30, hi=2 ** 31 - 1))
+        return dict(self=msg, stream=libspec.BytesIOVal(ip, None), __kwargs__={'server_root_key': libspec.mk_priv(ip, E.int('root_kid'))})
+    ensures = {'reply-body-size-bound': lambda stream: S.bool(ops.term(ops.bytes_len(stream.buf), 'int') <= HELLO_BODY_MAX)}
+
+
+def replay_amplification(label, model):
+    mtu = model.get('MTU') if isinstance(model, dict) else None
+    if not isinstance(mtu, int):
+        return None
+    return '''
+import sys
+from mpgameserver.connection import *
+from mpgameserver.context import ServerContext
+from mpgameserver.handler import EventHandler
+worst = None
+for attempt in range(40):                      # the DER signature length varies (70..72 bytes): take the largest reply seen
+    Packet.setMTU(%d)
+    T = [1000.0]
+    c = ClientServerConnection(("10.0.0.1", 1)); c.clock = lambda: T[0]
+    ctx = ServerContext(EventHandler())
+    s = ServerClientConnection(ctx, ("10.0.0.2", 2)); s.clock = lambda: T[0]
+    c._sendClientHello()
+    hello = c._encode_packet(c._build_packet())
+    accepted = s._recv_datagram(PacketHeader.from_bytes(True, hello), hello)
+    T[0] += 1
+    pkt = s._build_packet()
+    reply = s._encode_packet(pkt) if pkt else b""
+    if accepted and (worst is None or len(reply) > worst[1]):
+        worst = (len(hello), len(reply))
+Packet.setMTU(1500)
+print("MTU %d: accepted client hello of %%d bytes, server hello of %%d bytes sent to the unverified address" %% worst)
+sys.exit(1 if worst[1] > worst[0] else 0)
+''' % (mtu, mtu)
+
+
+@lemma('no-amplification-before-the-handshake-completes', props=['C11'], replay=replay_amplification)
+def _no_amplification(E):
+    """hello datagram >= 20 (header) + 2 (message seq) + 2 (type id) + PADDED(MAX_PAYLOAD_SIZE) + 4 (CRC);
+    reply datagram <= 20 + 2 + 2 + HELLO_BODY_MAX + 4; a connecting client is sent nothing else (one SERVER_HELLO with
+    RetryMode.NONE: _recvClientHello; keep-alives need status CONNECTED: _build_packet).  Reply <= hello for every MTU in the
+    documented range."""
+    mtu = S.term(E.int('MTU', lo=96, hi=1500), 'int')
+    mp = mtu - 28 - 20 - 16 - 2
+    hello_min = 20 + 2 + 2 + PADDED(mp) + 4
+    reply_max = 20 + 2 + 2 + HELLO_BODY_MAX + 4
+    fits = reply_max - 20 - 4 - 2 <= mp          # the reply is a single message: it is only ever sent if it fits a datagram
+    return {'reply-not-larger-than-the-hello-for-MTU-392-and-above': S.bool(z3.Implies(z3.And(fits, mtu >= 392), reply_max <= hello_min)),
+            # genuine, marginal (factor <= 1.07) and only for an MTU setting of 370..391: recorded as a known finding
+            'reply-not-larger-than-the-hello-for-every-MTU': S.bool(z3.Implies(fits, reply_max <= hello_min))}
